@@ -287,6 +287,52 @@ func c10R2(c *Ctx) {
 			c.ok("R2", key, p.Pos(g.Pos()), "never written after package initialisation")
 		}
 	}
+	// globals whose value is a reference to mutable memory must not hand that reference out
+	for _, x := range globals {
+		g := x.g
+		elem := g.Type().(*types.Pointer).Elem()
+		switch elem.Underlying().(type) {
+		case *types.Pointer, *types.Map, *types.Slice, *types.Chan:
+		default:
+			continue
+		}
+		var bad []string
+		singleton := false
+		for _, fn := range p.Funcs {
+			if p.inTestFile(fn) {
+				continue
+			}
+			allInstrs(fn, func(in ssa.Instruction) {
+				u, ok := in.(*ssa.UnOp)
+				if !ok || globalLoaded(u) != g {
+					return
+				}
+				for _, r := range referrersOf(u) {
+					switch y := r.(type) {
+					case *ssa.BinOp, *ssa.DebugRef, *ssa.If:
+					case *ssa.Return:
+						// the accessor of a lazily built prototype returns it: covered by R3 (cells of
+						// the prototype tables never escape a lookup)
+						if strings.HasSuffix(g.Name(), "Prototype") && strings.HasSuffix(shortName(fn), "Prototype") {
+							singleton = true
+							continue
+						}
+						bad = append(bad, "returned by "+shortName(fn)+" at "+p.InstrPos(y))
+					default:
+						bad = append(bad, fmt.Sprintf("used by %T in %s at %s", r, shortName(fn), p.InstrPos(r)))
+					}
+				}
+			})
+		}
+		key := "shared-reference " + x.pkg + "." + g.Name()
+		if len(bad) > 0 {
+			c.violated("R2", key, p.Pos(g.Pos()), "a package-level reference to mutable memory is handed out ("+strings.Join(dedup(bad), "; ")+"): whatever one run writes through it is seen by every later run in the process")
+		} else if singleton {
+			c.ok("R2", key, p.Pos(g.Pos()), "prototype singleton: handed out only by its accessor; its cells are protected by R3")
+		} else {
+			c.ok("R2", key, p.Pos(g.Pos()), "never handed out")
+		}
+	}
 	if len(globals) < 10 {
 		c.undecided("R2", "instance-floor", "", fmt.Sprintf("%d package-level variables found, 12 confirmed by hand", len(globals)))
 	}
